@@ -2331,7 +2331,9 @@ pub fn compile<I: BufRead, O: Write>(
             | Op::infix(Rule::orass, Assoc::Right)
             | Op::infix(Rule::xorass, Assoc::Right)
             | Op::infix(Rule::blsass, Assoc::Right)
-            | Op::infix(Rule::brsass, Assoc::Right))
+            | Op::infix(Rule::brsass, Assoc::Right)
+            | Op::infix(Rule::mulass, Assoc::Right)
+            | Op::infix(Rule::divass, Assoc::Right))
         .op(Op::infix(Rule::ternary_cond1, Assoc::Right))
         .op(Op::infix(Rule::ternary_cond2, Assoc::Right))
         .op(Op::infix(Rule::lor, Assoc::Left))
@@ -2366,7 +2368,9 @@ pub fn compile<I: BufRead, O: Write>(
             | Op::infix(Rule::orass, Assoc::Right)
             | Op::infix(Rule::xorass, Assoc::Right)
             | Op::infix(Rule::blsass, Assoc::Right)
-            | Op::infix(Rule::brsass, Assoc::Right))
+            | Op::infix(Rule::brsass, Assoc::Right)
+            | Op::infix(Rule::mulass, Assoc::Right)
+            | Op::infix(Rule::divass, Assoc::Right))
         .op(Op::infix(Rule::ternary_cond1, Assoc::Right))
         .op(Op::infix(Rule::ternary_cond2, Assoc::Right))
         .op(Op::infix(Rule::lor, Assoc::Left))
